@@ -4,6 +4,8 @@
 (* Every line is one call with its arguments and its RETURNED value:       *)
 (*   reset{limit,trlimit}  adjust{n,wu}  ondata{n,err}  onread{n,wu}       *)
 (*   newlimit{n}  trdata{n,wu}  trreset{wu}  trnewlimit{n,d}               *)
+(* and, from the wire of real transports talking to a raw peer:            *)
+(*   wdata{n,pad,rej}  wread{n}  wwu{s,wu}  wsettings{n}  wquiet  wnote    *)
 (* All numbers are logged as two limbs <<hi, lo>> = hi * 10^6 + lo (values *)
 (* reach 2^32-1 and their sums go beyond; TLC's integers are 32-bit); the  *)
 (* limb arithmetic below is exact.  The monitor keeps the                  *)
@@ -84,6 +86,38 @@ Step ==
          /\ cadv' = Add(cadv, Ev.d) /\ clim' = Ev.n /\ UNCHANGED <<cdebit, strm>>
          /\ Mark(Lt(Ev.n, clim) /\ OverCap(cadv', cdebit'), "I_CapConnAtLoweredLimit", l)
          /\ ConnChecks
+    \* ---- wire level (real transports against a raw peer): the same ledger, fed from frames.
+    \* wdata{n,pad,rej}: a DATA frame of flow-controlled length n of which pad bytes are padding (consumed by
+    \* the transport itself); rej = 1: the receiver answered with RST_STREAM / a connection error.
+    [] Ev.ev = "wdata" ->
+         IF dead THEN UNCHANGED <<strm, conn>>
+         ELSE LET inS == Le(Add(debit, Ev.n), adv)
+                  inC == Le(Add(cdebit, Ev.n), cadv) IN
+              /\ debit' = Add(debit, Ev.n) /\ cdebit' = Add(cdebit, Ev.n) /\ dead' = (Ev.rej = 1)
+              /\ acc' = IF Ev.rej = 1 THEN acc ELSE Add(acc, Ev.n)
+              /\ rd' = IF Ev.rej = 1 THEN rd ELSE Add(rd, Ev.pad)
+              /\ UNCHANGED <<adv, lim, adjusted, lowered, cadv, clim>>
+              /\ Mark(inS /\ inC /\ Ev.rej = 1, "I_Accept", l)
+              /\ Mark(~inS /\ Ev.rej = 0, "I_RejectExcess", l)
+    [] Ev.ev = "wread" ->          \* the application consumed n payload bytes
+         /\ rd' = Add(rd, Ev.n) /\ UNCHANGED <<adv, debit, acc, lim, dead, adjusted, lowered, conn>>
+    [] Ev.ev = "wwu" ->            \* WINDOW_UPDATE received (s = 1: the stream, s = 0: the connection)
+         IF Ev.s = 1
+           THEN /\ adv' = Add(adv, Ev.wu) /\ UNCHANGED <<debit, acc, rd, lim, dead, adjusted, lowered, conn>>
+                /\ Mark(~dead /\ OverCap(adv', debit), "I_Cap", l)
+           ELSE /\ cadv' = Add(cadv, Ev.wu) /\ UNCHANGED <<cdebit, clim, strm>>
+                /\ Mark(OverCap(cadv', cdebit), "I_CapConn", l)
+    [] Ev.ev = "wsettings" ->      \* SETTINGS_INITIAL_WINDOW_SIZE n received
+         /\ adv' = Add(adv, Ev.n) /\ debit' = Add(debit, lim) /\ lim' = Ev.n
+         /\ lowered' = (lowered \/ Lt(Ev.n, lim))
+         /\ UNCHANGED <<acc, rd, dead, adjusted, conn>>
+         /\ Mark(~dead /\ OverCap(adv', debit'), "I_Cap", l)
+    [] Ev.ev = "wquiet" ->         \* quiescent point: everything in flight has been processed
+         /\ UNCHANGED <<strm, conn>>
+         /\ Mark(~dead /\ Cmp(acc, rd) = 0 /\ Wedged(adv, debit, lim),
+                 IF lowered THEN "I_NoWedgeAfterLimitLowered" ELSE "I_NoWedge", l)
+         /\ Mark(Wedged(cadv, cdebit, clim), "I_NoWedgeConn", l)
+    [] Ev.ev = "wnote" -> UNCHANGED <<strm, conn>>
     [] Ev.ev = "panic" -> UNCHANGED <<strm, conn>> /\ Mark(TRUE, "NoPanic", l)
 Next == l <= TLen /\ l' = l + 1 /\ Consumed(l) /\ Step
 ====
